@@ -21,6 +21,7 @@ import (
 	"runtime/pprof"
 	"sort"
 	"strings"
+	"sync"
 	"time"
 
 	"reservoir/cache"
@@ -910,6 +911,45 @@ func runInterval() {
 				}
 				observe(next)
 				cur = next
+			}
+			if i%2 == 0 {
+				// two interval changes arriving WHILE a cycle is running (the janitor drains its 1-buffered
+				// change channel only between cycles): the later one must govern the following cycles.
+				if cur >= time.Second {
+					fastNow := time.Duration(5+r.Intn(20)) * time.Millisecond
+					config.UpdatePartialFromConfig(cfg, map[string]any{"cache": map[string]any{"cleanup_interval": fastNow.String()}})
+					observe(fastNow)
+				}
+				entered := make(chan struct{})
+				release := make(chan struct{})
+				var once sync.Once
+				cache.VerifSetYield(func(point string) {
+					if point == "janitor.afterScan" {
+						fire := false
+						once.Do(func() { fire = true })
+						if fire {
+							close(entered)
+							<-release
+						}
+					}
+				})
+				select {
+				case <-entered:
+					slow := time.Duration(1+r.Intn(3)) * time.Hour
+					last := time.Duration(5+r.Intn(36)) * time.Millisecond
+					config.UpdatePartialFromConfig(cfg, map[string]any{"cache": map[string]any{"cleanup_interval": slow.String()}})
+					time.Sleep(20 * time.Millisecond)
+					config.UpdatePartialFromConfig(cfg, map[string]any{"cache": map[string]any{"cleanup_interval": last.String()}})
+					time.Sleep(20 * time.Millisecond)
+					close(release)
+					cache.VerifSetYield(nil)
+					time.Sleep(50 * time.Millisecond) // both changes are drained between cycles
+					observe(last)
+					txt[len(txt)-1] += " (second of two changes made while a cycle was running)"
+				case <-time.After(5 * time.Second):
+					cache.VerifSetYield(nil)
+					close(release)
+				}
 			}
 			c.Destroy()
 			cancel()
